@@ -639,8 +639,12 @@ class Inliner:
             return not stars
         # helper(..., **k): the call must forward exactly one simple mapping and name no extras
         params = [x.arg for x in h.node.args.posonlyargs + h.node.args.args + h.node.args.kwonlyargs]
-        if any(k.arg is not None and k.arg not in params for k in call.keywords):
-            return False
+        extras = [k for k in call.keywords if k.arg is not None and k.arg not in params]
+        if extras:
+            # named extras land in the helper's **k: followed when the helper only forwards **k
+            # and the extra values are plain names / constants (so they may be written again)
+            if _mentions_kwarg_other_than_star(h.node, h.node.args.kwarg.arg) or not all(_simple_arg(k.value) for k in extras):
+                return False
         return len(stars) <= 1 and all(isinstance(k.value, ast.Name) for k in stars)
 
     def _imported(self, name, module):
@@ -844,9 +848,14 @@ class Inliner:
         bound = dict(zip(params, pos))
         order = list(params[:len(pos)])
         star_kw = None
+        extras = []
         for kw in call.keywords:
             if kw.arg is None:
                 star_kw = kw.value
+                continue
+            if a.kwarg is not None and kw.arg not in bound and kw.arg not in params + kwonly and _simple_arg(kw.value) \
+                    and not _mentions_kwarg_other_than_star(node, a.kwarg.arg):
+                extras.append(kw)
                 continue
             if kw.arg in bound or kw.arg not in params + kwonly:
                 raise NotInlinable('keyword')
@@ -904,6 +913,23 @@ class Inliner:
                 mentioned |= {x.id for x in ast.walk(v) if isinstance(x, ast.Name)}
         for n in sorted(locals_h - set(mapping)):
             mapping[n] = n if (tail and n not in mentioned) else self.fresh(n, k)
+        if extras:
+            # every ``**k`` of the helper body forwards the named extras and then the caller's mapping
+            kname = a.kwarg.arg
+            for x in body:
+                for n in ast.walk(x):
+                    if isinstance(n, ast.Call):
+                        newk = []
+                        for kw in n.keywords:
+                            if kw.arg is None and isinstance(kw.value, ast.Name) and kw.value.id == kname:
+                                newk.extend(ast.keyword(arg=e.arg, value=ast.Name(id='__extra_%s' % e.arg, ctx=ast.Load())) for e in extras)
+                                if star_kw is not None:
+                                    newk.append(kw)
+                            else:
+                                newk.append(kw)
+                        n.keywords = newk
+            for e in extras:
+                mapping['__extra_%s' % e.arg] = e.value
         body = [_Rename(mapping).visit(x) for x in body]
         for x in body:
             for n in ast.walk(x):
@@ -1550,6 +1576,8 @@ def lower_callable_records(repo):
                     init = b
                 elif isinstance(b, ast.FunctionDef) and b.name == '__call__' and not b.decorator_list:
                     call = b
+                elif isinstance(b, ast.FunctionDef) and b.name in ('__repr__', '__str__') and not b.decorator_list:
+                    pass        # how the callable prints: not what it computes
                 else:
                     ok = False
             if not ok or init is None or call is None:
@@ -1563,8 +1591,11 @@ def lower_callable_records(repo):
                 if isinstance(b, ast.Expr) and isinstance(b.value, ast.Constant):
                     continue
                 if isinstance(b, ast.Assign) and len(b.targets) == 1 and isinstance(b.targets[0], ast.Attribute) and isinstance(b.targets[0].value, ast.Name) \
-                        and b.targets[0].value.id == self_i and isinstance(b.value, ast.Name) and b.value.id in params and b.targets[0].attr not in stores:
-                    stores[b.targets[0].attr] = b.value.id
+                        and b.targets[0].value.id == self_i and b.targets[0].attr not in stores \
+                        and not any(isinstance(x, ast.Name) and x.id == self_i for x in ast.walk(b.value)) \
+                        and not any(isinstance(x, (ast.Lambda, ast.Yield, ast.Await, ast.NamedExpr)) for x in ast.walk(b.value)) \
+                        and not any(isinstance(x, ast.Name) and isinstance(x.ctx, ast.Store) and x.id in params for x in ast.walk(b.value)):
+                    stores[b.targets[0].attr] = b.value        # an expression over the parameters
                 else:
                     ok = False
             body = [b for b in call.body if not (isinstance(b, ast.Expr) and isinstance(b.value, ast.Constant))]
@@ -1619,21 +1650,34 @@ def lower_callable_records(repo):
                 vals[k.arg] = k.value
             if set(vals) != set(params):
                 return None
-            pre, bound = [], {}
+            pre, pbound, bound = [], {}, {}
+            seq[0] += 1
             for prm in params:
                 v = vals[prm]
                 if isinstance(v, ast.Constant):
-                    bound[prm] = v
+                    pbound[prm] = v
                 else:
-                    seq[0] += 1
                     nmv = '_cr%d_%s' % (seq[0], prm)
                     pre.append(ast.copy_location(ast.Assign(targets=[ast.Name(id=nmv, ctx=ast.Store())], value=v), callnode))
-                    bound[prm] = ast.Name(id=nmv, ctx=ast.Load())
+                    pbound[prm] = ast.Name(id=nmv, ctx=ast.Load())
+
+            class P(ast.NodeTransformer):
+                def visit_Name(self, n):
+                    if isinstance(n.ctx, ast.Load) and n.id in pbound:
+                        return ast.copy_location(copy.deepcopy(pbound[n.id]), n)
+                    return n
+            for attr, e in stores.items():
+                if isinstance(e, ast.Name) and e.id in pbound:
+                    bound[attr] = pbound[e.id]          # the parameter kept unchanged
+                else:
+                    nmv = '_cr%d_%s' % (seq[0], attr)
+                    pre.append(ast.copy_location(ast.Assign(targets=[ast.Name(id=nmv, ctx=ast.Store())], value=P().visit(copy.deepcopy(e))), callnode))
+                    bound[attr] = ast.Name(id=nmv, ctx=ast.Load())
 
             class S(ast.NodeTransformer):
                 def visit_Attribute(self, n):
                     if isinstance(n.value, ast.Name) and n.value.id == self_c and n.attr in stores:
-                        return ast.copy_location(copy.deepcopy(bound[stores[n.attr]]), n)
+                        return ast.copy_location(copy.deepcopy(bound[n.attr]), n)
                     return self.generic_visit(n)
             largs = copy.deepcopy(call.args)
             largs.args = largs.args[1:]
@@ -1880,7 +1924,10 @@ def lower_module_records(repo):
                     pp = par.get(id(hit))
                     if pp is decl and isinstance(hit.ctx, ast.Store):
                         continue
-                    if isinstance(pp, ast.Call) and pp.func is hit:
+                    if isinstance(pp, ast.Call) and pp.func is hit and len(pp.args) == 1 and isinstance(pp.args[0], ast.Starred) and not pp.keywords:
+                        # R(*t): the same elements under field names -- the tuple itself for every read by position
+                        sites.append((m2, pp, None))
+                    elif isinstance(pp, ast.Call) and pp.func is hit:
                         vals = dict(zip(fields, pp.args))
                         bad = any(isinstance(a_, ast.Starred) for a_ in pp.args) or len(pp.args) > len(fields)
                         for k in pp.keywords:
@@ -1914,7 +1961,7 @@ def lower_module_records(repo):
                 continue
             # constructor calls -> tuples
             for m2, call, vals in sites:
-                new = ast.copy_location(ast.Tuple(elts=[vals[f] for f in fields], ctx=ast.Load()), call)
+                new = ast.copy_location(ast.Tuple(elts=[vals[f] for f in fields], ctx=ast.Load()), call) if vals is not None else call.args[0].value
                 for fi in repo.functions.values():
                     if fi.module == m2:
                         _Replace(call, new).visit(fi.node)
@@ -2244,12 +2291,109 @@ def lower_compiled_aliases(repo):
     return count
 
 
+def lower_getters(repo):
+    """module-level ``N = operator.attrgetter('a.b')`` / ``N = operator.itemgetter(i)`` (one key):
+    ``N(e)`` is ``e.a.b`` / ``e[i]`` and the bare name N, handed on as a function, is
+    ``lambda _g: _g.a.b`` / ``lambda _g: _g[i]``.  Likewise a module-level function whose body is
+    one ``return <expression of its only parameter>`` and that is handed on by name (a key
+    function) is that lambda.  Exact"""
+    count = 0
+    for mod, info in repo.modules.items():
+        tree = info['tree']
+        getters = {}
+        for st in tree.body:
+            if isinstance(st, ast.Assign) and len(st.targets) == 1 and isinstance(st.targets[0], ast.Name) and isinstance(st.value, ast.Call) \
+                    and ast.unparse(st.value.func) in ('attrgetter', 'operator.attrgetter', 'itemgetter', 'operator.itemgetter') and len(st.value.args) == 1 \
+                    and not st.value.keywords and isinstance(st.value.args[0], ast.Constant):
+                kind = 'attr' if 'attrgetter' in ast.unparse(st.value.func) else 'item'
+                v = st.value.args[0].value
+                if kind == 'attr' and not (isinstance(v, str) and all(x.isidentifier() for x in v.split('.'))):
+                    continue
+                getters[st.targets[0].id] = (kind, v)
+        # names bound more than once at module level are left alone
+        for nm in list(getters):
+            if sum(1 for st in tree.body if isinstance(st, (ast.Assign, ast.FunctionDef, ast.ClassDef)) and
+                   ((isinstance(st, ast.Assign) and any(isinstance(t, ast.Name) and t.id == nm for t in st.targets)) or getattr(st, 'name', None) == nm)) != 1:
+                getters.pop(nm)
+        if not getters:
+            continue
+
+        def apply(nm, e):
+            kind, v = getters[nm]
+            if kind == 'item':
+                return ast.Subscript(value=e, slice=ast.Constant(value=v), ctx=ast.Load())
+            for part in v.split('.'):
+                e = ast.Attribute(value=e, attr=part, ctx=ast.Load())
+            return e
+
+        class T(ast.NodeTransformer):
+            def visit_Call(self, n):
+                if isinstance(n.func, ast.Name) and n.func.id in getters and len(n.args) == 1 and not n.keywords and not isinstance(n.args[0], ast.Starred):
+                    arg = self.visit(n.args[0])
+                    return ast.copy_location(apply(n.func.id, arg), n)
+                return self.generic_visit(n)
+
+            def visit_Name(self, n):
+                if isinstance(n.ctx, ast.Load) and n.id in getters:
+                    lam = ast.Lambda(args=ast.arguments(posonlyargs=[], args=[ast.arg(arg='_g')], kwonlyargs=[], kw_defaults=[], defaults=[]),
+                                     body=apply(n.id, ast.Name(id='_g', ctx=ast.Load())))
+                    return ast.copy_location(lam, n)
+                return n
+        for fi in repo.functions.values():
+            if fi.module == mod and isinstance(fi.node, ast.FunctionDef):
+                local = {x.id for x in ast.walk(fi.node) if isinstance(x, ast.Name) and isinstance(x.ctx, ast.Store)} | {a.arg for a in fi.node.args.args}
+                if local & set(getters):
+                    continue
+                fi.node.body = [T().visit(x) for x in fi.node.body]
+                ast.fix_missing_locations(fi.node)
+        count += len(getters)
+        # one-expression module functions handed on by name
+        for st in list(tree.body):
+            if not (isinstance(st, ast.FunctionDef) and not st.decorator_list and len(st.args.args) == 1 and not (st.args.vararg or st.args.kwarg or st.args.kwonlyargs or st.args.defaults)):
+                continue
+            body = [b for b in st.body if not (isinstance(b, ast.Expr) and isinstance(b.value, ast.Constant))]
+            if len(body) != 1 or not isinstance(body[0], ast.Return) or body[0].value is None:
+                continue
+            if any(isinstance(x, (ast.Lambda, ast.Yield, ast.Await, ast.NamedExpr, ast.ListComp, ast.GeneratorExp, ast.SetComp, ast.DictComp)) for x in ast.walk(body[0].value)):
+                continue
+            prm = st.args.args[0].arg
+            free = {x.id for x in ast.walk(body[0].value) if isinstance(x, ast.Name)} - {prm}
+            if free - set(dir(__builtins__) if not isinstance(__builtins__, dict) else __builtins__):
+                continue
+            nm = st.name
+
+            class K(ast.NodeTransformer):
+                def visit_Call(self, n):
+                    # only the arguments: a direct call f(x) is left to the helper inliner
+                    n.args = [self.visit(a_) for a_ in n.args]
+                    n.keywords = [ast.keyword(arg=k_.arg, value=self.visit(k_.value)) for k_ in n.keywords]
+                    if not (isinstance(n.func, ast.Name) and n.func.id == nm):
+                        n.func = self.visit(n.func)
+                    return n
+
+                def visit_Name(self, n):
+                    if isinstance(n.ctx, ast.Load) and n.id == nm:
+                        lam = ast.Lambda(args=copy.deepcopy(st.args), body=copy.deepcopy(body[0].value))
+                        return ast.copy_location(lam, n)
+                    return n
+            for fi in repo.functions.values():
+                if fi.module == mod and isinstance(fi.node, ast.FunctionDef) and fi.node is not st:
+                    local = {x.id for x in ast.walk(fi.node) if isinstance(x, ast.Name) and isinstance(x.ctx, ast.Store)} | {a.arg for a in fi.node.args.args}
+                    if nm in local:
+                        continue
+                    fi.node.body = [K().visit(x) for x in fi.node.body]
+                    ast.fix_missing_locations(fi.node)
+    return count
+
+
 def inline_helpers(repo):
+    repo.lowered_getters = 0
     repo.lowered_compiled_aliases = lower_compiled_aliases(repo)
     repo.lowered_value_objects = lower_value_objects(repo)
     repo.lowered_module_records = 0
     repo.lowered_derived_maps = lower_derived_maps(repo)
     repo.lowered_callable_records = lower_callable_records(repo)
+    repo.lowered_getters = lower_getters(repo)
     repo.lowered_record_entries = lower_record_entries(repo)
     repo.lowered_module_records = lower_module_records(repo)
     repo.lowered_suppress = lower_suppress(repo)
